@@ -60,12 +60,12 @@ func TestVerif_C04_Lifecycle(t *testing.T) {
 	st := vfNewStats(t)
 	rapid.Check(t, func(rt *rapid.T) {
 		controlling := rapid.Bool().Draw(rt, "controlling")
-		lite := !controlling && rapid.IntRange(0, 3).Draw(rt, "lite") == 0
+		lite := !controlling && rapid.IntRange(0, 2).Draw(rt, "lite") == 0
 		explicit := !lite || rapid.Bool().Draw(rt, "explicitDisconnectedTimeout")
 		dt := rapid.SampledFrom(c04Durations).Draw(rt, "disconnectedTimeout")
 		ft := rapid.SampledFrom(c04Durations).Draw(rt, "failedTimeout")
 		keepalive := rapid.SampledFrom([]time.Duration{0, 2 * time.Second}).Draw(rt, "keepalive")
-		viaConfig := rapid.IntRange(0, 2).Draw(rt, "viaAgentConfig") == 0
+		viaConfig := rapid.IntRange(0, 2).Draw(rt, "viaAgentConfig") == 0 || (lite && rapid.Bool().Draw(rt, "liteViaAgentConfig"))
 		cfg := simAgentConfig{
 			controlling: controlling, lite: lite, maxBinding: 7, disconnected: dt, failed: ft, keepalive: keepalive,
 			explicitTimeout: explicit, viaConfig: viaConfig,
